@@ -148,6 +148,18 @@ Theorem c39_flush_marked_deleted : forall cfg procs s u x,
 Proof. exact flush_marked_deleted. Qed.
 Print Assumptions c39_flush_marked_deleted.
 
+(* ... and the hypothesis "not added to another collection" is necessary: register_object(cancel_delete=True) *)
+Theorem c39_flush_marked_deleted_refuted :
+  exists cfg s x,
+    poison s = false /\ marked s x = true /\ st s x = Persistent /\ snd (op_flush cfg s) = 0 /\
+    st (fst (op_flush cfg s)) x = Persistent /\ rowp (fst (op_flush cfg s)) x = true /\
+    marked (fst (op_flush cfg s)) x = true /\
+    (exists p ri, In x (h_added (hist_coll s p ri))) /\
+    (exists ri p, rowfk (fst (op_flush cfg s)) x ri = Some p /\ c_do (fwd (getrel cfg ri)) = true /\
+                  rowp (fst (op_flush cfg s)) p = false).
+Proof. exact flush_marked_deleted_refuted. Qed.
+Print Assumptions c39_flush_marked_deleted_refuted.
+
 (* delete_closure at flush, second half: deleted at flush  is included in  marked + orphans + reach_delete(orphans)
    (+ the targets of a many-to-one delete cascade) *)
 Theorem c39_flush_deletes_only_justified : forall cfg procs s u x,
